@@ -307,7 +307,9 @@ func init() {
 			n    int
 			tail string
 		}
-		names := []nameSpec{{1, ""}, {13, ""}, {100, ""}, {245, ""}, {254, ""}, {255, ""}, {256, ""}, {256, "_0"}, {256, "_12"}, {13, "_0"}}
+		names := []nameSpec{{1, ""}, {13, ""}, {100, ""}, {245, ""}, {254, ""}, {255, ""}, {256, ""}, {256, "_0"}, {256, "_12"}, {13, "_0"},
+			// every character a cookie name may contain besides letters and digits (RFC 6265 token): percent signs, dots, tildes …
+			{13, "%2Dx"}, {9, "100%"}, {16, ".id~v1"}, {14, "!#$&'*+-"}, {12, "%d%s%v"}}
 		hosts := []string{tHost, tHost + ":8443", "sub." + tHost}
 		perCell := 60 * c.scale
 		hid := 0
